@@ -288,7 +288,12 @@ def oracle_resource(impl, res, seen=None):
     if o_effective(want) != o_effective(o2):
         return ("options %r compose to %r which decomposes to different options %r"
                 % (o_effective(want), u, o_effective(o2)))
-    if res["uri_host"] is not None and o2["uri_host"] != res["uri_host"]:
+    spells_ip = res["uri_host"] is not None and (
+        o_host_key(res["uri_host"])[0] == "ip6"
+        or re.fullmatch(r"\d+\.\d+\.\d+\.\d+", res["uri_host"]) is not None)
+    # (a Uri-Host value that spells an IP address comes back as the remote: same destination,
+    # compared above; outside the options->URI->options clause, cf. NameOk in the Lean model)
+    if res["uri_host"] is not None and o2["uri_host"] != res["uri_host"] and not spells_ip:
         return "Uri-Host %r comes back as %r via %r" % (res["uri_host"], o2["uri_host"], u)
     if seen is not None:
         key = o_effective(want)
@@ -631,6 +636,9 @@ def gen_structured_text(rng):
         defects = [("MalformedUrlError", "no host")] if not frag_txt.strip("#") else \
             [("MalformedUrlError", "fragment")]
     text = prefix + ui_txt + host_txt + port_txt + path_txt + query_txt + frag_txt
+    if not prefix.endswith("//") and (ui_txt + host_txt + port_txt + path_txt).startswith("//"):
+        unmodelled = True                  # the path's empty first segment is read as "//authority"
+        prefix = prefix + "//"
     if rng.random() < 0.04:
         text = rng.choice([" ", "\x00 ", "\x1f"]) + text
     if any(ord(c) < 0x21 for c in text) or any(ord(c) > 127 for c in ui_txt + host_txt + port_txt):
@@ -738,7 +746,7 @@ def run_resources(env, rep, impl, resources):
             rep.count("G:degenerate")
         v = oracle_resource(impl, r, seen)
         if v:
-            rep.oracle_fail(r, v, key="opts-uri-opts:" + v.split(" ")[0])
+            rep.oracle_fail(r, v, key=oracle_key(v))
     model = compare(env, rep, cases, lines, outs, what="get_request_uri")
     # the text Lean composed goes into the real set_request_uri
     texts = []
@@ -789,7 +797,12 @@ def oracle_key(v):
     """short stable identifier of a verdict: the clause, not the input"""
     if "not a documented URL error" in v:
         return "undocumented-exception:" + v.split(" raised ")[1].split(",")[0]
-    for marker, key in (("decomposes to different options", "uri-opts-uri-differs"),
+    for marker, key in (("which decomposes to different options", "opts-uri-opts-differs"),
+                        ("composed from options", "composed-uri-rejected"),
+                        ("collapse into", "resources-collapse"),
+                        ("comes back as", "opts-uri-opts-differs"),
+                        ("for options", "compose-raises"),
+                        ("decomposes to different options", "uri-opts-uri-differs"),
                         ("is not accepted again", "normal-form-rejected"),
                         ("is not stable", "normal-form-unstable"),
                         ("non-URI characters", "non-uri-characters"),
@@ -813,7 +826,7 @@ def lib_correspondence(env, rep, impl):
                  b"\xf0\x8f\xbf\xbf", b"\xf4\x8f\xbf\xbf", b"\xf4\x90\x80\x80", b"\xf5\x80\x80\x80",
                  b"\xc3", b"\xe2\x82", b"\xf0\x9f\x98", b"\x80", b"\xbf", b"a\xc3\xa5b", b"\xc3\xa5\xc3"]
     samples += edge_utf8 + [b"%" + e.hex().upper().encode()[:2] + e[1:] for e in edge_utf8]
-    for _ in range(env.scale(1500, 30000)):
+    for _ in range(env.scale(6000, 60000)):
         n = rng.choice([1, 2, 3, 4, 6, 10])
         k = rng.random()
         if k < 0.4:
@@ -897,7 +910,7 @@ def lib_correspondence(env, rep, impl):
     splits = [impl.util.hostportjoin(h, p) for h in hosts for p in ports] + [
         "h:", "h:abc", "h:1:2", ":80", "[::1]:", "[::1]:x", "[::1]x:7", "u@h:1", "@h", "a@b@[::1]:9",
         "[::1", "::1", "h:065535", "h:65536", "H:1", "[FE80::1%ETH0]:1", "ex%41MPLE:1", "h: 1", "h:+1"]
-    for _ in range(env.scale(300, 5000)):
+    for _ in range(env.scale(1500, 20000)):
         splits.append("".join(rng.choice("ah.:[]@%0159Z") for _ in range(rng.choice([1, 3, 6, 10]))))
     for hp in splits:
         lines.append("C16 H " + hx(hp))
@@ -915,7 +928,7 @@ def lib_correspondence(env, rep, impl):
     import ipaddress
     lines, outs, cases = [], [], []
     texts = IP6_FORMS + IP6_BAD + IP6_CANON + [a + "%" + z for a in IP6_CANON[:4] for z in ZONES if z]
-    for _ in range(env.scale(600, 20000)):
+    for _ in range(env.scale(3000, 40000)):
         k = rng.random()
         if k < 0.6:
             groups = [rng.choice(["0", "0", "0", "1", "a", "00", "0a0", "ffff", "FFFF", "12345", "g", ""])
@@ -965,19 +978,19 @@ def run(env, rep):
             corpus_res.append(c)
 
     # options -> URI -> options
-    resources = corpus_res + boundary_resources() + [gen_resource(rng) for _ in range(env.scale(2500, 60000))]
+    resources = corpus_res + boundary_resources() + [gen_resource(rng) for _ in range(env.scale(12000, 150000))]
     lean_texts = run_resources(env, rep, impl, resources)
     run_texts(env, rep, impl, [(t, None) for t in lean_texts], "composed", feedback=False)
 
     # URI -> options -> URI: corpus, boundary table, structured texts
     run_texts(env, rep, impl, corpus_texts + [(t, None) for t in BOUNDARY_TEXTS], "boundary")
-    structured = [gen_structured_text(rng) for _ in range(env.scale(4000, 100000))]
+    structured = [gen_structured_text(rng) for _ in range(env.scale(20000, 250000))]
     for _, e in structured:
         rep.count("structured:expect=" + (e[0] if e else "none"))
     run_texts(env, rep, impl, structured, "structured")
 
     # arbitrary strings
-    run_texts(env, rep, impl, [(gen_arbitrary(rng), None) for _ in range(env.scale(3000, 80000))],
+    run_texts(env, rep, impl, [(gen_arbitrary(rng), None) for _ in range(env.scale(15000, 200000))],
               "arbitrary")
 
     lib_correspondence(env, rep, impl)
